@@ -3,7 +3,9 @@
  * libevent_global_shutdown.  Real event.c/evmap.c on a constructed base (with a lock).
  *
  * Shape of a run (all -D, enumerated by props/C10.py; "concrete prefix" in the sense of DESIGN 3.4):
- *     A = event_new(kind C10_KIND: 0 one-shot read on fd 4, 1 persistent read, 2 pure timer)
+ *     A = event_new(kind C10_KIND: 0 one-shot read on fd 4, 1 persistent read, 2 pure timer, 3 one-shot signal event,
+ *                   4 persistent signal event; signal events are activated with ncalls = C10_NCALLS: the closure calls the
+ *                   callback ncalls times unless the event is deleted/released in between)
  *     B = event_new(persistent read on fd 3), added
  *     C10_OP1; C10_OP2; C10_OP3            from the alphabet below, applied to A (or the base)
  *     when A's callback runs it performs C10_CBACT once (free itself, finalize itself, free B, ...)
@@ -77,6 +79,9 @@
 #endif
 #ifndef C10_FIN_FREES
 #define C10_FIN_FREES 0
+#endif
+#ifndef C10_NCALLS      /* ncalls of event_active(A): a signal event's callback is invoked that many times in a row */
+#define C10_NCALLS 1
 #endif
 
 struct mon { int exists, mem_released, released, deleted, ncb, nfin, fin_requested, fin_frees_mem, lib_owns_mem; };
@@ -207,7 +212,7 @@ static void do_op(int op)
 	case O_NOP: break;
 	case O_ADD: if (!mA.released) { r = event_add(A, &tv_1); if (r == 0) mA.deleted = 0; } break;
 	case O_ADD_NULL: if (!mA.released) { r = event_add(A, NULL); if (r == 0) mA.deleted = 0; } break;
-	case O_ACTIVE: if (a_usable()) { if (!mA.released) mA.deleted = 0; event_active(A, g_res, 1); } break;
+	case O_ACTIVE: if (a_usable()) { if (!mA.released) mA.deleted = 0; event_active(A, (C10_KIND >= 3) ? EV_SIGNAL : g_res, C10_NCALLS); } break;
 	case O_DEL: if (a_usable()) { r = event_del(A); mA.deleted = 1; } break;
 	case O_FINALIZE: if (!mA.released) u_finalize(&A, &mA); break;
 	case O_FREE_FINALIZE: if (!mA.released) u_free_finalize(&A, &mA); break;
@@ -244,8 +249,12 @@ void harness_lifetime(void)
 	A = event_new(base, 4, EV_READ, cb, &tagA);
 #elif C10_KIND == 1
 	A = event_new(base, 4, EV_READ | EV_PERSIST, cb, &tagA);
-#else
+#elif C10_KIND == 2
 	A = event_new(base, -1, 0, cb, &tagA);
+#elif C10_KIND == 3
+	A = event_new(base, 2, EV_SIGNAL, cb, &tagA);                  /* one-shot signal event (not evsignal_new) */
+#else
+	A = event_new(base, 2, EV_SIGNAL | EV_PERSIST, cb, &tagA);
 #endif
 	B = event_new(base, 3, EV_READ | EV_PERSIST, cb, &tagB);
 	__CPROVER_assume(A != NULL && B != NULL);
